@@ -40,6 +40,10 @@ REQ = {
     "post_expect": b"POST http://example.com/%s HTTP/1.1\r\nHost: example.com\r\nExpect: 100-continue\r\nContent-Length: 5\r\n\r\nhello",
     "get10": b"GET http://example.com/%s HTTP/1.0\r\nHost: example.com\r\n\r\n",
     "get_b": b"GET http://other.example/%s HTTP/1.1\r\nHost: other.example\r\n\r\n",
+    # a plain-HTTP tunnel: CONNECT, then (possibly in the same segment, before the 200) origin-form requests inside it
+    "connect": b"CONNECT example.com:80 HTTP/1.1\r\nHost: example.com:80\r\nX-Conn: %s\r\n\r\n",
+    "get_origin": b"GET /%s HTTP/1.1\r\nHost: example.com\r\n\r\n",
+    "post_origin": b"POST /%s HTTP/1.1\r\nHost: example.com\r\nContent-Length: 7\r\n\r\nhello\r\n",
 }
 RESP = {
     "cl": b"HTTP/1.1 200 OK\r\nContent-Length: 4\r\nX-Id: %s\r\n\r\nbody",
@@ -75,6 +79,9 @@ BASES = [
     # sequential keep-alive (request k+1 is only sent after response k has been received): with surplus
     # upstream bytes a *pipelined* follower would make the outcome depend on whether the surplus reaches the
     # proxy before or after it forwarded the follower, which no proxy can observe - so these are not pipelined.
+    # sequential: a client must not send tunnel payload before it has received the 2xx to its CONNECT
+    ("seq-tunnel-get", [("connect", None), ("get_origin", "cl")], None),
+    ("seq-tunnel-post-get", [("connect", None), ("post_origin", "cl"), ("get_origin", "ch")], None),
     ("seq2", [("get", "cl"), ("post_cl", "ch")], None),
     ("seq2-surplus", [("get", "surplus"), ("get", "cl")], None),
     ("seq3-surplus-junk", [("get", "cl"), ("get", "surplus-junk"), ("get", "cl")], None),
@@ -90,7 +97,8 @@ BASE_BY_NAME = {b[0]: b for b in BASES}
 def build(base):
     name, pairs, stream = base
     cs = b"".join(REQ[r] % (b"r%d" % i) for i, (r, _) in enumerate(pairs))
-    rs = [RESP[s] % (b"%d" % i) for i, (_, s) in enumerate(pairs)]
+    # a CONNECT is answered by mitmproxy itself (response kind None): upstream responses are numbered without it
+    rs = [RESP[s] % (b"%d" % i) for i, (_, s) in enumerate(p for p in pairs if p[1])]
     return cs, rs
 
 
@@ -135,7 +143,8 @@ class Exec:
             pending = []  # [(end, [segments])] in release order
             released = 0
             per_end_seen = {}
-            nreq = len(pairs)
+            upstream_pairs = [p for p in pairs if p[1]]
+            nreq = len(upstream_pairs)
             step = 0
             while True:
                 # release responses for requests that have completely arrived at some upstream end
@@ -147,7 +156,7 @@ class Exec:
                         if released < nreq:
                             r = self.rs[released]
                             segs = split(r, "all" == self.scuts and range(1, len(r)) or [c for c in self.scuts if c < len(r)])
-                            eof = pairs[released][1] in ("eof", "close")
+                            eof = upstream_pairs[released][1] in ("eof", "close")
                             pending.append([e, segs, eof])
                             released += 1
                     per_end_seen[id(e)] = len(msgs)
@@ -218,6 +227,8 @@ class Exec:
         ccls = "all" if self.ccuts == "all" else len(self.ccuts)
         scls = "all" if self.scuts == "all" else len(self.scuts)
         feats = {"base": name}
+        if out.get("raw_hooks") and not base_out.get("raw_hooks"):
+            feats["treated_as_raw_tcp"] = True  # the tunnelled HTTP was not recognised as HTTP in this schedule
         case = {"base": name, "ccuts": self.ccuts if self.ccuts == "all" else list(self.ccuts),
                 "scuts": self.scuts if self.scuts == "all" else list(self.scuts), "choices": list(choices)}
         nontrivial = bool(self.ccuts) or bool(self.scuts) or any(choices)
@@ -230,6 +241,8 @@ class Exec:
         # (interim 1xx responses are mitmproxy's own `100 Continue`; how many requests get answered at all is
         # fixed by same_outcome_client against the baseline, e.g. one when the first response says `Connection: close`)
         ids = [dict((n.lower(), v) for n, v in m["fields"]).get(b"x-id") for m in out["client_msgs"] if not m["start"][1].startswith(b"1")]
+        if "tunnel" in name:
+            ids = [x for x in ids if x is not None]  # mitmproxy's own `200 Connection established` carries no id
         t.judge("pipelined_in_order", ids == [b"%d" % i for i in range(len(ids))],
                 feats, case, list(range(len(ids))), ids)
 
@@ -248,11 +261,12 @@ def outcome(w: World, methods):
         msgs, verdict = http1ref.parse_requests(e.w.data)
         up.append({"addr": e.address, "verdict": verdict, "msgs": [_msg(m) for m in msgs]})
     cm, cv = http1ref.parse_responses(w.client.w.data, _methods(methods), eof=w.client.w.closed)
-    return {"flows": flows, "upstream": up, "client": {"verdict": cv, "msgs": [_msg(m) for m in cm]}, "client_msgs": cm, "errors": []}
+    raw = sorted({n for n, _ in w.hooks if n.startswith(("tcp_", "udp_"))})
+    return {"flows": flows, "upstream": up, "client": {"verdict": cv, "msgs": [_msg(m) for m in cm]}, "client_msgs": cm, "errors": [], "raw_hooks": raw}
 
 
 def _methods(kinds):
-    return [{"get": b"GET", "head": b"HEAD", "get10": b"GET", "get_b": b"GET"}.get(k, b"POST") for k in kinds]
+    return [{"get": b"GET", "head": b"HEAD", "get10": b"GET", "get_b": b"GET", "get_origin": b"GET", "connect": b"CONNECT"}.get(k, b"POST") for k in kinds]
 
 
 def _strip(part):
